@@ -508,6 +508,36 @@ def r15_shared_value(c, facts, rule='C02.R15'):
         c.ok(R, {'eval_declaration': 'the cached value is evaluated with the declaration\'s own annotations'})
 
 
+def r15b_shared_rec(c, facts, rule='C02.R15'):
+    """the same for `rec`: its component is registered under a name that does not depend on the use, so its value must not
+    either"""
+    R = c.rule(rule, 'SHARED-VALUE: the value cached for a reference does not depend on the annotations of the use that evaluates it first')
+    fn = c.anchor(R, 'oal_compiler::eval::eval_recursion')
+    annp = [i for i in range(1, fn.mir['argc'] + 1) if 'AnnRef' in fn.mir['locals'][i]['ty'] or 'Annotation' in fn.mir['locals'][i]['ty']]
+    if len(annp) != 1:
+        c.bad(R, 'eval_recursion:annotation-parameter-shape', 'eval_recursion no longer takes exactly one annotation parameter')
+        return
+    T = taint_forward(fn, annp)
+    idx = MF.defs_index(fn)
+    n = 0
+    bad = False
+    for b, t in fn.calls():
+        info = callee_of(t)
+        if not info or info['def'].split('::')[-1] != 'insert' or len(t['args']) < 3 or 'l' not in t['args'][2]:
+            continue
+        sl = MF.slice_back(fn, t['args'][2]['l'], idx)
+        for name, ct, cb in sl['calls']:
+            if P.name_is(name, 'eval_any'):
+                n += 1
+                if any(a.get('l') in T for a in ct['args'][2:]):
+                    bad = True
+    c.floor(R, 'evaluations whose result eval_recursion registers', n, 1)
+    if bad:
+        c.bad(R, 'eval_recursion:shared-value-evaluated-with-use-site-annotations', 'eval_recursion evaluates the component it registers with the annotations of the use at hand: `\'a r `title: "A"`, \'b r `title: "B"`` for one `rec` gives one component titled "B"')
+    else:
+        c.ok(R, {'eval_recursion': 'the registered value does not depend on the use-site annotations'})
+
+
 def r16_range_key(c, facts, rule='C02.R16'):
     """Responses are keyed by (status, media) from the moment `::` combines them (Ranges is a map): whatever decides the
     status of a content - the `status=` tag, or 204 for a content without a body - must be decided when the content is
@@ -558,6 +588,7 @@ def run(c, facts):
     c.shared(R17, _c05.r1_transparent, 'C05.R1', facts)
     c.run(r16_range_key, facts)
     c.run(r15_shared_value, facts)
+    c.run(r15b_shared_rec, facts)
     c.run(r12_combine, facts)
     import c08
     import c09
